@@ -1,7 +1,7 @@
 use std::io::{BufRead, Seek, Write};
 use cbor_event::de::Deserializer;
 use cbor_event::se::Serializer;
-use crate::{BootstrapWitness, BootstrapWitnesses, CborSetType, DeserializeError};
+use crate::{BootstrapWitness, BootstrapWitnesses, CborSetType, DeserializeError, DeserializeFailure};
 use crate::protocol_types::Deserialize;
 use crate::serialization::utils::skip_set_tag;
 
@@ -36,7 +36,9 @@ impl Deserialize for BootstrapWitnesses {
                 cbor_event::Len::Indefinite => true,
             } {
                 if raw.cbor_type()? == cbor_event::Type::Special {
-                    assert_eq!(raw.special()?, cbor_event::Special::Break);
+                    if raw.special()? != cbor_event::Special::Break {
+                        return Err(DeserializeFailure::EndingBreakMissing.into());
+                    }
                     break;
                 }
                 arr.push(BootstrapWitness::deserialize(raw)?);
